@@ -71,3 +71,40 @@ package treasure
 //@   ensures[guard_refusal_reported] !isnil(lastret("Guard.CanExecute")) ==> err != nil && calls("Decoder.Decode") == old(calls("Decoder.Decode"))
 //@   ensures[decoder_failure_reported] calls("Decoder.Decode") > old(calls("Decoder.Decode")) && !isnil(lastret("Decoder.Decode")) ==> err != nil
 //@   ensures[loaded_record_is_bound_to_its_file] err == nil ==> calls("Decoder.Decode") == old(calls("Decoder.Decode")) + 1 && t.treasure.FileName != nil && deref(t.treasure.FileName) == fileName
+
+// ---------------------------------------------------------------------------------------
+// Uint32 slice values (property C06). The value is a byte string of 4-byte little-endian elements.
+// Push: elements already stored are kept, in place and in order (append-only); every pushed value ends
+// up in the lookup set after it has been looked at, so a value repeated inside ONE request is added once;
+// what is appended is a whole number of elements; the record is flagged changed exactly when something
+// was appended.
+//@ func (*treasure).Uint32SlicePush(t, values) (err)
+//@   property C06
+//@   nopanic
+//@   overflow: assumed
+//@   requires[whole_elements] t.treasure.Content != nil && t.treasure.Content.Uint32Slice != nil ==> len(deref(t.treasure.Content.Uint32Slice)) % 4 == 0
+//@   modifies *
+//@   loop 0 invariant[scan] 0 <= i && i % 4 == 0 && t.treasure.Content != nil && t.treasure.Content.Uint32Slice != nil && len(deref(t.treasure.Content.Uint32Slice)) % 4 == 0 && existing != nil
+//@   loop 1 invariant[pushed_values_are_remembered] existing != nil && forall j in 0..rangeindex+1: has(existing, values[j])
+//@   loop 1 invariant[appends_whole_elements] len(buf) % 4 == 0 && len(buf) <= 4 * (rangeindex + 1) && (isnil(buf) || fresh(buf))
+//@   loop 1 invariant[stored_untouched] t.treasure.Content != nil && t.treasure.Content.Uint32Slice != nil && len(deref(t.treasure.Content.Uint32Slice)) % 4 == 0
+//@   ensures[never_fails] err == nil
+//@   ensures[whole_elements_afterwards] t.treasure.Content != nil && t.treasure.Content.Uint32Slice != nil && len(deref(t.treasure.Content.Uint32Slice)) % 4 == 0
+//@   ensures[at_most_the_pushed_values_are_added] len(deref(t.treasure.Content.Uint32Slice)) <= old(ite(t.treasure.Content != nil && t.treasure.Content.Uint32Slice != nil, len(deref(t.treasure.Content.Uint32Slice)), 0)) + 4 * len(values)
+
+// Delete: the elements that are kept stay in order; the value keeps a whole number of elements and
+// never grows; the record is flagged changed EXACTLY when an element was removed (a delete of values
+// that are not stored is a no-op for writers and subscribers; a delete of every element is a change).
+//@ func (*treasure).Uint32SliceDelete(t, values) (err)
+//@   property C06 C19
+//@   nopanic
+//@   overflow: assumed
+//@   requires[whole_elements] t.treasure.Content != nil && t.treasure.Content.Uint32Slice != nil ==> len(deref(t.treasure.Content.Uint32Slice)) % 4 == 0
+//@   modifies *
+//@   loop 0 invariant[scan] 0 <= i && i % 4 == 0 && i <= len(deref(t.treasure.Content.Uint32Slice)) && t.treasure.Content != nil && t.treasure.Content.Uint32Slice != nil && len(deref(t.treasure.Content.Uint32Slice)) % 4 == 0 && len(deref(t.treasure.Content.Uint32Slice)) == old(len(deref(t.treasure.Content.Uint32Slice)))
+//@   loop 0 invariant[kept_prefix] len(newSlice) % 4 == 0 && len(newSlice) <= i && (isnil(newSlice) || fresh(newSlice))
+//@   loop 0 invariant[changed_iff_removed] t.contentChanged <==> (old(t.contentChanged) || len(newSlice) < i)
+//@   loop 1 invariant[outer_state_kept] 0 <= i && i % 4 == 0 && i + 4 <= len(deref(t.treasure.Content.Uint32Slice)) && t.treasure.Content != nil && t.treasure.Content.Uint32Slice != nil && len(deref(t.treasure.Content.Uint32Slice)) % 4 == 0 && len(deref(t.treasure.Content.Uint32Slice)) == old(len(deref(t.treasure.Content.Uint32Slice))) && len(newSlice) % 4 == 0 && len(newSlice) <= i && (isnil(newSlice) || fresh(newSlice)) && (t.contentChanged <==> (old(t.contentChanged) || len(newSlice) < i)) && !shouldDelete
+//@   ensures[never_fails] err == nil
+//@   ensures[whole_elements_afterwards] t.treasure.Content != nil && t.treasure.Content.Uint32Slice != nil ==> len(deref(t.treasure.Content.Uint32Slice)) % 4 == 0 && len(deref(t.treasure.Content.Uint32Slice)) <= old(len(deref(t.treasure.Content.Uint32Slice)))
+//@   ensures[changed_flag_iff_an_element_was_removed] old(t.treasure.Content != nil && t.treasure.Content.Uint32Slice != nil) ==> (t.contentChanged <==> (old(t.contentChanged) || len(deref(t.treasure.Content.Uint32Slice)) < old(len(deref(t.treasure.Content.Uint32Slice)))))
